@@ -29,7 +29,7 @@ Definition chan_ok (form : cform) (upper : bool) (v : N) : bool :=
 
 (* every channel value of every width: 16 + 256 + 4096 + 65536 + 256 values, both letter cases *)
 Lemma chan_sweep :
-  forallb (fun form => forallb (fun upper => sweep_pow 16 0 (chan_ok form upper)) [true; false])
+  forallb (fun form => forallb (fun upper => sweep_pow (4 * chan_digits form) 0 (chan_ok form upper)) [true; false])
           [Rgb1; Rgb2; Rgb3; Rgb4; Hash2] = true.
 Proof. vm_compute. reflexivity. Qed.
 
@@ -48,8 +48,8 @@ Proof.
   assert (Hf : In form [Rgb1; Rgb2; Rgb3; Rgb4; Hash2]) by (destruct form; cbn; tauto).
   specialize (H form Hf). cbv beta in H. rewrite forallb_forall in H.
   assert (Hu : In upper [true; false]) by (destruct upper; cbn; tauto). specialize (H upper Hu). cbv beta in H.
-  pose proof (chan_bound_le form) as Hb.
-  pose proof (sweep_pow_sound 16 0 _ H v ltac:(lia) ltac:(change (0 + 2 ^ N.of_nat 16) with 65536; lia)) as Hs.
+  assert (Hbits : 0 + 2 ^ N.of_nat (4 * chan_digits form) = chan_bound form) by (destruct form; reflexivity).
+  pose proof (sweep_pow_sound (4 * chan_digits form) 0 _ H v ltac:(lia) ltac:(rewrite Hbits; exact Hv)) as Hs.
   unfold chan_ok in Hs. replace (v <? chan_bound form) with true in Hs by lia. cbn [negb orb] in Hs.
   apply andb_true_iff in Hs. destruct Hs as [H1 H2]. split; [exact H1|].
   destruct form.
